@@ -238,6 +238,27 @@ def count_points(svc, snap, req):
     return r.npoints['A'], r.responses['A']
 
 
+def write_points(svc, snap, req):
+    """1-based indices of the scheduling points of a request (run alone)
+    that end a state-changing transaction."""
+    svc.restore(snap)
+    start = dump(svc.dbpath)
+    r = Race(svc, {'A': req}, [], observe=True).run()
+    out = []
+    prev = start
+    i = 0
+    for (_n, kind, d) in r.points:
+        if d is None:
+            continue
+        if kind == 'txn-end':
+            i += 1
+            if d.core() != prev.core() or d.projects != prev.projects or \
+                    d.users != prev.users or d.ctypes != prev.ctypes:
+                out.append(i)
+        prev = d
+    return out
+
+
 def serial(svc, snap, reqs, order):
     """Run the named requests one after another; returns (responses, dump)."""
     svc.restore(snap)
